@@ -186,9 +186,37 @@ func evalC07(h *hz.H, sp *enum.Space, c enum.Case, b bounds, replayDet *bool, au
 			}
 		}
 	}
-	for variant := 0; variant < 2; variant++ {
+	for variant := 0; variant < 3; variant++ {
 		gv := g
 		vname := "as-built"
+		if variant == 2 {
+			// what plain Go code can build: a nil element / nil map value / oneof wrapper holding nil next to the value
+			if len(c) > 1 {
+				continue
+			}
+			gv = enum.BuildGo(d.ProtoReflect())
+			n := 0
+			fs := sp.MD.Fields()
+			doneOneof := map[string]bool{}
+			for i := 0; i < fs.Len(); i++ {
+				fd := fs.Get(i)
+				switch {
+				case fd.IsList() && fd.Kind() == protoreflect.MessageKind, fd.IsMap() && fd.MapValue().Kind() == protoreflect.MessageKind:
+					if enum.InjectNil(gv, int(fd.Number())) {
+						n++
+					}
+				case fd.ContainingOneof() != nil && !fd.ContainingOneof().IsSynthetic() && fd.Kind() == protoreflect.MessageKind && !doneOneof[string(fd.ContainingOneof().Name())] && d.ProtoReflect().WhichOneof(fd.ContainingOneof()) == nil:
+					if enum.InjectNilOneof(gv, fd) {
+						doneOneof[string(fd.ContainingOneof().Name())] = true
+						n++
+					}
+				}
+			}
+			if n == 0 {
+				continue
+			}
+			vname = "with nil list elements / nil map values / oneof wrappers holding nil"
+		}
 		if variant == 1 {
 			// (proto.Clone would go through the code under test; rebuild independently instead)
 			gv = enum.BuildGo(d.ProtoReflect())
